@@ -77,7 +77,7 @@ def _prune(keep_key):
         if os.path.isdir(p) and d.startswith("k-"):
             entries.append((os.path.getmtime(p), p))
     entries.sort(reverse=True)
-    for _, p in entries[3:]:
+    for _, p in entries[6:]:
         if not p.endswith(keep_key):
             shutil.rmtree(p, ignore_errors=True)
 
